@@ -402,7 +402,12 @@ func (e *Enc) convert(fr *Frame, x *ssa.Convert, st *State, reach Term) Term {
 		_ = tbits
 		return wrapMod(v, to)
 	case fromInt && ts == SF64:
-		return T(SF64, "((_ to_fp 11 53) RNE (to_real %s))", v.S)
+		r := e.def("i2f", T(SF64, "((_ to_fp 11 53) RNE (to_real %s))", v.S))
+		// helper facts the solvers do not derive through to_real: zero maps to +0, nothing else maps to a zero, sign is kept
+		e.assume(tTrue, T(SBool, "(= (= %s 0) (fp.isZero %s))", v.S, r.S))
+		e.assume(tTrue, T(SBool, "(=> (= %s 0) (= %s (_ +zero 11 53)))", v.S, r.S))
+		e.assume(tTrue, T(SBool, "(and (not (fp.isNaN %s)) (not (fp.isInfinite %s)) (= (< %s 0) (fp.isNegative %s)))", r.S, r.S, v.S, r.S))
+		return r
 	case fs == SF64 && toInt:
 		r := e.fresh("f2i", SInt)
 		// exact when the truncated value is in range; otherwise implementation-defined (left unconstrained)
